@@ -245,7 +245,10 @@ IR_BYTES = {"a": "data/g.txt", "b": "data/g.txt", "c": "data/g.txt", "d": "data/
 def ll_unescape(s):
     out, i = bytearray(), 0
     while i < len(s):
-        if s[i] == "\\" and i + 2 < len(s) + 1 and re.match(r"[0-9A-Fa-f]{2}", s[i + 1:i + 3]):
+        if s[i] == "\\" and s[i + 1:i + 2] == "\\":
+            out.append(0x5C)
+            i += 2
+        elif s[i] == "\\" and re.match(r"[0-9A-Fa-f]{2}", s[i + 1:i + 3]):
             out.append(int(s[i + 1:i + 3], 16))
             i += 3
         else:
